@@ -482,6 +482,13 @@ type Violation struct {
 	Obs     []string
 	Events  []string
 	Verdict string // sat | unknown
+	Hashes  []HashTarget
+	Seed    uint64
+}
+
+type HashTarget struct {
+	Key []uint64
+	H   uint64
 }
 
 // check is an obligation: cond must hold on this path. Returns false when the
@@ -570,6 +577,29 @@ func (s *State) reportWith(kind, msg string, m Model, verdict string) {
 			}
 		}
 		v.Inputs = s.inputsUnder(m)
+		memo := map[*Expr]uint64{}
+		for _, a := range hashOrder {
+			h, ok := m[a.h]
+			if !ok {
+				continue
+			}
+			ht := HashTarget{H: h}
+			good := true
+			for _, c := range a.cells {
+				x, ok := evalExpr(c.(*Expr), m, memo)
+				if !ok {
+					good = false
+					break
+				}
+				ht.Key = append(ht.Key, x)
+			}
+			if good {
+				v.Hashes = append(v.Hashes, ht)
+			}
+		}
+		if sd, ok := m[Var("hashseed", 32)]; ok {
+			v.Seed = sd
+		}
 	}
 	violations = append(violations, v)
 	if verbose {
